@@ -59,3 +59,91 @@ def targeting(draw, m, m2, infos):
             t = M.type_index(m).get(n) or M.type_index(m2).get(n)
             out.append(type_section(draw, t.get("cname", n) if t else n))
     return "\n".join(out)
+
+
+# --------------------------------------------------------------------------
+# C22: sections that cannot match anything in either binary.  Every section carries at least one "killer" property,
+# unsatisfiable by construction of the generated programs: all their identifiers come from the generator's small
+# alphabet (fnN, varN, stN, ...), files are called lib.so, sonames are absent, symbol versions are VERS_1/VERS_2.
+
+NEVER = "zzq_never_%d"
+
+
+def _killers(draw, kind, m):
+    k = []
+    n = NEVER % draw(st.integers(0, 99))
+    if kind in ("suppress_function", "suppress_variable"):
+        k = [[("name", n)], [("name_regexp", "^zzq_.*$")], [("symbol_name", n)], [("symbol_name_regexp", "^zzq_[a-z]+$")],
+             [("symbol_version", "NOPE_9")], [("symbol_version_regexp", "^NOPE_")], [("name_not_regexp", ".*")],
+             [("file_name_regexp", "^zzq_.*")], [("file_name_not_regexp", ".*")], [("soname_regexp", "^zzq")],
+             [("soname_not_regexp", ".*")]]
+        if kind == "suppress_function":
+            k += [[("return_type_name", n)], [("parameter", "'0 " + n)], [("return_type_regexp", "^zzq_")]]
+        else:
+            k += [[("type_name", n)], [("type_name_regexp", "^zzq_")]]
+    elif kind == "suppress_type":
+        k = [[("name", n)], [("name_regexp", "^zzq_.*$")], [("name_not_regexp", ".*")], [("file_name_regexp", "^zzq_.*")],
+             [("file_name_not_regexp", ".*")], [("soname_regexp", "^zzq")], [("soname_not_regexp", ".*")]]
+        # a name that exists, with a kind it does not have
+        wrong = {"struct": ["enum", "typedef", "union"], "union": ["enum", "typedef", "struct"],
+                 "enum": ["struct", "union", "typedef"], "typedef": ["enum", "union"], "class": ["enum", "typedef", "union"]}
+        for t in m["types"]:
+            if t["kind"] in wrong and not t.get("where", "pub").startswith("tu"):
+                names = set(x.get("cname", x["name"]) for x in m["types"])
+                if sum(1 for x in m["types"] if x.get("cname", x["name"]) == t["name"]) == 1:
+                    k.append([("name", t["name"]), ("type_kind", _pick(draw, wrong[t["kind"]]))])
+    else:   # suppress_file
+        k = [[("file_name_regexp", "^zzq_.*")], [("file_name_not_regexp", ".*")], [("soname_regexp", "^zzq")],
+             [("soname_not_regexp", ".*")]]
+    return k
+
+
+def _fillers(draw, kind, m, m2):
+    """Properties that can only narrow a section further (AND semantics)."""
+    out = []
+    names = [i["name"] for mm in (m, m2) for kk, i in M.interfaces(mm)]
+    tnames = [t.get("cname", t["name"]) for t in m["types"]]
+    opts = [("label", "lbl%d" % draw(st.integers(0, 9)))]
+    if kind == "suppress_function":
+        opts += [("change_kind", _pick(draw, ["function-subtype-change", "added-function", "deleted-function", "all"])),
+                 ("allow_other_aliases", _pick(draw, ["yes", "no"]))]
+        if names:
+            opts += [("name_regexp", "^" + _pick(draw, names)[:2] + ".*"), ("symbol_name", _pick(draw, names))]
+    elif kind == "suppress_variable":
+        opts += [("change_kind", _pick(draw, ["variable-subtype-change", "added-variable", "deleted-variable", "all"]))]
+        if names:
+            opts += [("symbol_name_regexp", "^" + _pick(draw, names)[:3])]
+    elif kind == "suppress_type":
+        opts += [("type_kind", _pick(draw, ["struct", "enum", "union", "typedef", "class"])),
+                 ("accessed_through", _pick(draw, ["direct", "pointer", "reference", "reference-or-pointer"])),
+                 ("has_data_member_inserted_at", _pick(draw, ["end", "0", "offset_of(m0)", "offset_after(m1)"])),
+                 ("source_location_not_regexp", "^zzq"), ("changed_enumerators", "ZZQ_E0"),
+                 ("has_data_member_inserted_between", "{8, end}")]
+        if tnames:
+            opts += [("name_regexp", "^" + _pick(draw, tnames)[:2])]
+    for _ in range(draw(st.integers(0, 3))):
+        out.append(_pick(draw, opts))
+    return out
+
+
+def unsatisfiable(draw, m, m2):
+    secs = []
+    kinds = []
+    for _ in range(draw(st.integers(1, 5))):
+        kind = _pick(draw, ["suppress_function", "suppress_variable", "suppress_type", "suppress_type", "suppress_file"])
+        killer = _pick(draw, _killers(draw, kind, m))
+        fill = _fillers(draw, kind, m, m2) if kind != "suppress_file" else []
+        # a property may appear once, and a property and its _regexp / _not_regexp variants are alternatives for the tool
+        # (whichever it looks at first wins, the manual does not say which): never combine members of one family
+        fam = lambda k_: k_.replace("_not_regexp", "").replace("_regexp", "")
+        keys = set(fam(k) for k, v in killer)
+        props = [p for p in fill if fam(p[0]) not in keys]
+        seen = set()
+        props = [p for p in props if not (fam(p[0]) in seen or seen.add(fam(p[0])))]
+        pos = draw(st.integers(0, len(props)))
+        props = props[:pos] + killer + props[pos:]
+        if draw(st.integers(0, 9)) == 0 and kind in ("suppress_function", "suppress_variable", "suppress_type"):
+            props.append(("drop", "yes"))
+        secs.append(section(kind, props))
+        kinds.append(kind + ":" + killer[0][0])
+    return "\n".join(secs), kinds
